@@ -1,0 +1,52 @@
+//go:build verif
+
+package connectconformance
+
+// Contracts for suite expansion (C07), test_case_library.go.
+
+// The name prefix spells out, in a fixed order, the suite name and exactly the axes the suite
+// leaves open (an axis is fixed when the suite lists exactly one value for it; TLS is fixed
+// when the suite relies on TLS).
+//@ spec openAxes(s *conformancev1.TestSuite) int = (len(s.RelevantHttpVersions) != 1 ? 1 : 0) + (len(s.RelevantProtocols) != 1 ? 1 : 0) +
+//@    (len(s.RelevantCodecs) != 1 ? 1 : 0) + (len(s.RelevantCompressions) != 1 ? 1 : 0) + (s.ReliesOnTls ? 0 : 1)
+//@ func generateTestCasePrefix
+//@   requires suite != nil
+//@   modifies nothing
+//@   ensures @length len(result) == 2 + openAxes(suite) && fresh(result)
+//@   ensures @head result[0] == "" && result[1] == suite.Name
+//@   assert_at "if len(suite.RelevantHttpVersions) != 1 {": len(components) == 2 && components[0] == "" && components[1] == suite.Name
+//@   assert_at "if len(suite.RelevantProtocols) != 1 {": len(components) >= 2 && components[0] == "" && components[1] == suite.Name
+//@   assert_at "if len(suite.RelevantCodecs) != 1 {": len(components) >= 2 && components[0] == "" && components[1] == suite.Name
+//@   assert_at "if len(suite.RelevantCompressions) != 1 {": len(components) >= 2 && components[0] == "" && components[1] == suite.Name
+
+// full name of a gRPC-implementation permutation: the marker is inserted before the simple name
+//@ func addGRPCMarkerToName
+//@   modifies nothing
+//@   ensures hasSuffix(fullName, simpleName) ==> result == fullName[:len(fullName) - len(simpleName)] +
+//@        ((clientIsGRPCImpl && serverIsGRPCImpl) ? "(grpc impls)" : (clientIsGRPCImpl ? "(grpc client impl)" : (serverIsGRPCImpl ? "(grpc server impl)" : ""))) + "/" + simpleName
+
+// a case belongs to the server instance given by its protocol, HTTP version and TLS markers
+//@ func serverInstanceForCase
+//@   requires testCase != nil && testCase.Request != nil
+//@   pure
+//@   ensures result.protocol == testCase.Request.Protocol && result.httpVersion == testCase.Request.HttpVersion &&
+//@        result.useTLS == (len(testCase.Request.ServerTlsCert) > 0) && result.useTLSClientCerts == (testCase.Request.ClientTlsCreds != nil)
+
+// expandCases: every entry it adds to the library is a private copy of a test case of the
+// wanted stream type, registered under its full name, carrying the config case's HTTP
+// version, protocol, codec and compression, the TLS markers of the config case, and the
+// client receive limit; entries that were there before are left alone (a duplicate full
+// name is an error, never an overwrite).
+//@ spec entryFor(tc *conformancev1.TestCase, k string, c configCase) bool = tc != nil && tc.Request != nil && tc.Request.TestName == k &&
+//@    tc.Request.HttpVersion == c.Version && tc.Request.Protocol == c.Protocol && tc.Request.Codec == c.Codec && tc.Request.Compression == c.Compression &&
+//@    tc.Request.StreamType == c.StreamType && tc.Request.MessageReceiveLimit == 1048576 &&
+//@    (len(tc.Request.ServerTlsCert) > 0) == c.UseTLS && (tc.Request.ClientTlsCreds != nil) == (c.UseTLS && c.UseTLSClientCerts)
+//@ func (*testCaseLibrary).expandCases
+//@   requires lib != nil && lib.testCases != nil && lib.testCaseNames != nil
+//@   requires forall i int :: 0 <= i && i < len(testCases) ==> testCases[i] != nil && testCases[i].Request != nil
+//@   modifies mapof(testCaseLibrary.testCases), mapof(testCaseLibrary.testCaseNames), conformancev1.ClientCompatRequest.*, conformancev1.TLSCreds.*, *string, []string
+//@   ensures @entries forall k string :: has(lib.testCases, k) && !old(has(lib.testCases, k)) ==> entryFor(lib.testCases[k], k, cfgCase) && fresh(lib.testCases[k]) && has(lib.testCaseNames, k)
+//@   ensures @kept forall k string :: old(has(lib.testCases, k)) ==> has(lib.testCases, k) && lib.testCases[k] == old(lib.testCases[k])
+//@   loop 0: invariant lib.testCases != nil && lib.testCaseNames != nil
+//@           invariant forall k string :: has(lib.testCases, k) && !atpre(has(lib.testCases, k)) ==> entryFor(lib.testCases[k], k, cfgCase) && fresh(lib.testCases[k]) && fresh(lib.testCases[k].Request) && has(lib.testCaseNames, k)
+//@           invariant forall k string :: atpre(has(lib.testCases, k)) ==> has(lib.testCases, k) && lib.testCases[k] == atpre(lib.testCases[k])
